@@ -8,7 +8,6 @@
 package c01
 
 import (
-	"bufio"
 	"encoding/json"
 	"fmt"
 	"os"
@@ -29,7 +28,6 @@ import (
 	ucd "github.com/go-text/typesetting/unicodedata"
 	"pgregory.net/rapid"
 
-	"verif/internal/corpus"
 	"verif/internal/ev"
 	sc "verif/internal/shapecase"
 	"verif/internal/textgen"
@@ -84,9 +82,9 @@ func validRune(r rune) bool { return r >= 0 && r <= 0x10FFFF && !(r >= 0xD800 &&
 // summary is what the oracle learned about one result (for classification).
 type summary struct {
 	glyphs       int
-	merged       bool // some cluster has RuneCount != 1 (shaping) / covers several runes (harfbuzz)
-	multi        bool // some cluster has more than one glyph
-	nonMonotone2 bool // cluster level 2 result that is not monotone (allowed)
+	merged       bool   // some cluster has RuneCount != 1 (shaping) / covers several runes (harfbuzz)
+	multi        bool   // some cluster has more than one glyph
+	nonMonotone2 bool   // cluster level 2 result that is not monotone (allowed)
 	excluded     string // id of the known finding that explains a clause this case fails
 }
 
@@ -198,6 +196,19 @@ func checkHarfbuzzResult(c *sc.Case, face *font.Face, res *sc.HBResult) (summary
 		}
 	}
 	s.nonMonotone2 = !monotone && s.excluded == ""
+	// Rune accounting at the default cluster level, which is what shaping.Shape builds RuneCount on
+	// (countClusters: the counts sum to end − lowest cluster): merged or deleted characters hand
+	// their cluster to a neighbour, so the lowest cluster — first glyph in reading order — is the
+	// first rune of the run.
+	if harfbuzz.ClusterLevel(c.ClusterLevel) == harfbuzz.MonotoneGraphemes && len(res.Info) > 0 && s.excluded == "" {
+		first := res.Info[0].Cluster
+		if backward {
+			first = res.Info[len(res.Info)-1].Cluster
+		}
+		if first != c.RunStart {
+			return s, fmt.Errorf("cluster level 0: lowest cluster is %d, the run starts at %d (per-cluster rune counts would sum to %d, not %d)", first, c.RunStart, c.RunEnd-first, n)
+		}
+	}
 	s.merged = len(res.Info) > 0 && len(distinct) < n
 	return s, nil
 }
@@ -613,61 +624,13 @@ func TestPropShapeAllFaces(t *testing.T) {
 
 // ---- native fuzzing (thorough tier only) ----
 
-// upstreamSeeds reads (font, text) pairs from the upstream HarfBuzz expectation files shipped with
-// the corpus; every stride-th line is used.
+// upstreamSeeds returns every stride-th (font, text) pair of the upstream expectation files.
 func upstreamSeeds(stride int) (fonts []uint16, texts [][]byte) {
-	p := sc.ThePool()
-	index := map[string]int{}
-	for i, f := range p.All {
-		if f.Index == 0 {
-			index[f.File] = i
+	for i, pr := range sc.UpstreamPairs() {
+		if i%stride == 0 {
+			fonts = append(fonts, uint16(pr.Face))
+			texts = append(texts, []byte(string(pr.Text)))
 		}
-	}
-	root := filepath.Join(corpus.Dir(), "harfbuzz", "harfbuzz_reference")
-	var files []string
-	filepath.Walk(root, func(path string, info os.FileInfo, err error) error {
-		if err == nil && !info.IsDir() && strings.HasSuffix(path, ".tests") {
-			files = append(files, path)
-		}
-		return nil
-	})
-	sort.Strings(files)
-	line := 0
-	for _, fp := range files {
-		f, err := os.Open(fp)
-		if err != nil {
-			continue
-		}
-		scn := bufio.NewScanner(f)
-		scn.Buffer(make([]byte, 1<<20), 1<<20)
-		for scn.Scan() {
-			parts := strings.Split(scn.Text(), ";")
-			if len(parts) < 4 || strings.HasPrefix(parts[0], "#") {
-				continue
-			}
-			line++
-			if line%stride != 0 {
-				continue
-			}
-			rel, err := filepath.Rel(corpus.Dir(), filepath.Join(filepath.Dir(fp), parts[0]))
-			if err != nil {
-				continue
-			}
-			fi, ok := index[rel]
-			if !ok {
-				continue
-			}
-			var rs []rune
-			for _, u := range strings.Split(parts[2], ",") {
-				v, err := strconv.ParseUint(strings.TrimPrefix(strings.TrimSpace(u), "U+"), 16, 32)
-				if err == nil {
-					rs = append(rs, rune(v))
-				}
-			}
-			fonts = append(fonts, uint16(fi))
-			texts = append(texts, []byte(string(rs)))
-		}
-		f.Close()
 	}
 	return fonts, texts
 }
